@@ -132,13 +132,13 @@ def run(ctx):
                      'trajectories with |qd| > 1e4 are counted as diverged, not compared', 'collisions disabled (contact-free scenes)']
   c05_scan.run_scan(ctx, 4 if q else 5)
   os.makedirs(tlc.WORK, exist_ok=True)
-  models = [c['model'] for c in c01.relational_cases(ctx, 'c05-models', 3 if q else 4, 4 if q else 250, cls='freeroot', seed_off=51)]
+  models = [c['model'] for c in c01.relational_cases(ctx, 'c05-models', 3 if q else 4, 4 if q else 90, cls='freeroot', seed_off=51)]
   # sibling-swap family: a root with two leaf children of DIFFERENT stack lengths; swapping them keeps link_parents and the
   # total dof count but changes how the dofs are distributed (what any table keyed on shape alone would get wrong)
   sib = [c['model'] for c in c01.relational_cases(ctx, 'c05-sib', 3, 40 if q else 200, cls='freeroot', seed_off=52)]
   sib = [m for m in sib if len(m['links']) == 3 and m['links'][1]['parent'] == 1 and m['links'][2]['parent'] == 1
          and len(m['links'][1]['stack']) != len(m['links'][2]['stack'])]
-  models = sib[: (2 if q else 40)] + models
+  models = sib[: (2 if q else 20)] + models
   cases, meta = [], []
   states = [phys.float_state(m, r, qscale=1.0, qdscale=1.0) for m in models]
   from harness.drivers import c04
